@@ -17,7 +17,9 @@ from engine.frames import L, U
 
 CMP, BND = L("cmp", "+"), L("bnd", "-")
 FREQ = L("bnd", "+")
-SEEDS = {"self._frequencies": (U, FREQ), "self._eigenvectors": (U, CMP, BND)}
+SEEDS = {"self._frequencies": (U, FREQ), "self._eigenvectors": (U, CMP, BND), "self._eigvecs2": (U, CMP, BND),
+         # the tetrahedron iterator yields, per q-point, integration weights (frequency point, band)
+         "self._tetrahedron_mesh": (U, U, FREQ), "self._weights": (U,)}
 
 
 def run(rep: core.Report, rid: str, scope: list, floor: int = 1):
